@@ -506,6 +506,50 @@ func c05Roots(prefix []int, mode string, variant string) explore.Outcome {
 				viol = append(viol, V(k("stale-answer-accepted"), "ListRoots for session B returned %q (%v): not the answer B posted (A had answered an earlier request twice)", rootsOf(gb), eb))
 			}
 			obs.Add("A=%s B=%s", rootsOf(got), rootsOf(gb))
+		case "two-kinds":
+			// in one session: ListRoots and an application request sent with SendRequest (the server assigns
+			// its id) are pending together; the peer answers each by the id it was sent with
+			var got *mcp.ListRootsResult
+			var gerr, serr error
+			var raw *json.RawMessage
+			d1, d2 := &hx.Flag{}, &hx.Flag{}
+			vsched.Go("list-roots-A", func() { got, gerr = w.listRoots(context.Background(), 0); d1.Set() })
+			vsched.Go("send-request-A", func() {
+				req := &mcp.JSONRPCRequest{JSONRPC: "2.0"}
+				req.Method = "x/ask"
+				if w.r.SSE != nil {
+					raw, serr = w.r.SSE.SendRequest(mergeCtx(context.Background(), mcp.VerifSessionContextSSE(w.r.SSE, w.sid(0))), w.sid(0), req)
+				} else {
+					raw, serr = w.r.Server.SendRequest(context.Background(), w.sid(0), req)
+				}
+				d2.Set()
+			})
+			vsched.Go("peer-A-roots", func() {
+				f, ok := A.Await("roots/list", func(f string) bool { return strings.Contains(f, `"roots/list"`) })
+				if ok {
+					answer(A, string(rawIDOf(f)), "file:///A")
+				}
+			})
+			vsched.Go("peer-A-ask", func() {
+				f, ok := A.Await("x/ask", func(f string) bool { return strings.Contains(f, `"x/ask"`) })
+				if ok {
+					A.PostOnly(fmt.Sprintf(`{"jsonrpc":"2.0","id":%s,"result":{"answer":"to-the-ask"}}`, rawIDOf(f)))
+				}
+			})
+			vsched.Quiesce()
+			switch {
+			case !d1.Get() || !d2.Get():
+				viol = append(viol, V(k("roots-hangs"), "ListRoots returned=%v, SendRequest returned=%v although the peer answered both by their ids; A's stream: %v; blocked: %v", d1.Get(), d2.Get(), A.StreamFrames(), vsched.LiveThreads()))
+			case gerr != nil || rootsOf(got) != "file:///A":
+				viol = append(viol, V(k("roots-crossed"), "ListRoots, pending together with another server request of the session: %q %v", rootsOf(got), gerr))
+			case serr != nil || raw == nil || !strings.Contains(string(*raw), "to-the-ask"):
+				r := "<nil>"
+				if raw != nil {
+					r = string(*raw)
+				}
+				viol = append(viol, V(k("roots-crossed"), "SendRequest, pending together with ListRoots of the same session, returned %s %v", r, serr))
+			}
+			obs.Add("roots=%s", rootsOf(got))
 		case "two-sessions":
 			var ga, gb *mcp.ListRootsResult
 			var ea, eb error
@@ -926,7 +970,7 @@ func init() {
 			RegisterScenario(&Scenario{Name: fmt.Sprintf("c05/notify/%s/pad%d", mode, pad), Run: func(p []int, m []vsched.ChoicePoint) explore.Outcome { return c05Notify(p, mode, pad) },
 				Doc: "two sessions with open streams: Send(A,a1);Send(A,a2) || Broadcast || Filtered(only B)"})
 		}
-		for _, v := range []string{"foreign-answer", "two-sessions", "with-notification", "duplicate-answer"} {
+		for _, v := range []string{"foreign-answer", "two-sessions", "with-notification", "duplicate-answer", "two-kinds"} {
 			v := v
 			RegisterScenario(&Scenario{Name: fmt.Sprintf("c05/roots/%s/%s", mode, v), Run: func(p []int, m []vsched.ChoicePoint) explore.Outcome { return c05Roots(p, mode, v) },
 				Doc: "server-issued roots/list: " + v})
@@ -958,7 +1002,7 @@ func init() {
 		for _, mode := range []string{"ss", "ls"} {
 			c.DFSBoth(fmt.Sprintf("c05/notify/%s/pad0", mode), explore.Bounds{Preempt: c.Pick(2, 4), Dev: 1, MaxExec: c.Pick(6000, 300000)}, 1)
 			c.DFS(fmt.Sprintf("c05/notify/%s/pad65537", mode), explore.Bounds{Preempt: c.Pick(1, 2), Dev: 1, POR: true, MaxExec: c.Pick(3000, 100000)})
-			for _, v := range []string{"foreign-answer", "two-sessions", "with-notification", "duplicate-answer"} {
+			for _, v := range []string{"foreign-answer", "two-sessions", "with-notification", "duplicate-answer", "two-kinds"} {
 				c.DFSBoth(fmt.Sprintf("c05/roots/%s/%s", mode, v), explore.Bounds{Preempt: c.Pick(2, 3), Dev: 1, MaxExec: c.Pick(6000, 300000)}, 1)
 			}
 		}
